@@ -5,6 +5,7 @@ import (
 	"crypto"
 	"crypto/rsa"
 	"crypto/sha256"
+	_ "crypto/sha512"
 	"crypto/x509"
 	"encoding/asn1"
 	"errors"
@@ -423,22 +424,33 @@ func refForeignAttrs(n int) [][]byte {
 // attributes contentType, signingTime, messageDigest followed by `extra` (complete Attribute elements). Written from
 // RFC 2315 section 9; shares nothing with the library's writer.
 func refCMSForeign(like *RefCMS, detached []byte, pk *PoolKey, at time.Time, extra [][]byte) []byte {
-	md := sha256.Sum256(detached)
-	if like.HasContent {
-		md = sha256.Sum256(like.ContentOctet)
+	return refCMSForeignAlg(like, detached, pk, at, extra, crypto.SHA256)
+}
+
+// refCMSForeignAlg: the same with another digest algorithm (SHA-384, SHA-512) throughout.
+func refCMSForeignAlg(like *RefCMS, detached []byte, pk *PoolKey, at time.Time, extra [][]byte, alg crypto.Hash) []byte {
+	sum := func(b []byte) []byte {
+		h := alg.New()
+		h.Write(b)
+		return h.Sum(nil)
 	}
-	algSHA := derSeq(derAny(oidSHA256), derTLV(asn1.ClassUniversal, asn1.TagNull, false, nil))
+	oid := map[crypto.Hash]asn1.ObjectIdentifier{crypto.SHA256: oidSHA256, crypto.SHA384: {2, 16, 840, 1, 101, 3, 4, 2, 2}, crypto.SHA512: {2, 16, 840, 1, 101, 3, 4, 2, 3}}[alg]
+	md := sum(detached)
+	if like.HasContent {
+		md = sum(like.ContentOctet)
+	}
+	algSHA := derSeq(derAny(oid), derTLV(asn1.ClassUniversal, asn1.TagNull, false, nil))
 	algRSA := derSeq(derAny(oidRSA), derTLV(asn1.ClassUniversal, asn1.TagNull, false, nil))
 	utc := derTLV(asn1.ClassUniversal, asn1.TagUTCTime, false, []byte(at.UTC().Format("060102150405Z")))
 	attrs := [][]byte{
 		derSeq(derAny(oidAttrCType), derSet(derAny(like.EContentType))),
 		derSeq(derAny(oidAttrSignTime), derSet(utc)),
-		derSeq(derAny(oidAttrDigest), derSet(derAny(md[:]))),
+		derSeq(derAny(oidAttrDigest), derSet(derAny(md))),
 	}
 	attrs = append(attrs, extra...)
 	content := derCat(attrs...)
-	signedOver := sha256.Sum256(derTLV(asn1.ClassUniversal, asn1.TagSet, true, content))
-	sig, err := rsa.SignPKCS1v15(nil, pk.Key, crypto.SHA256, signedOver[:])
+	signedOver := sum(derTLV(asn1.ClassUniversal, asn1.TagSet, true, content))
+	sig, err := rsa.SignPKCS1v15(nil, pk.Key, alg, signedOver)
 	if err != nil {
 		harnessf("refCMSForeign: %v", err)
 	}
